@@ -167,6 +167,36 @@ func ruleADDR1(c *Ctx) {
 			return true
 		})
 	}
+	// replacing only the embedded reflect.Value keeps the old forcedAddr bit: allowed only where the new
+	// value has the same addressability as the old one (never for a dereference or a scratch copy)
+	for _, f := range p.FuncsIn("json") {
+		if f.Body() == nil {
+			continue
+		}
+		info := f.Info()
+		decl := f
+		if d := p.enclosingDecl(f); d != nil {
+			decl = d
+		}
+		InspectNoLit(f.Body(), func(nd ast.Node) bool {
+			as, ok := nd.(*ast.AssignStmt)
+			if !ok || len(as.Lhs) != len(as.Rhs) {
+				return true
+			}
+			for i, l := range as.Lhs {
+				sel, ok := ast.Unparen(l).(*ast.SelectorExpr)
+				if !ok || sel.Sel.Name != "Value" || !isAV(info.TypeOf(sel.X)) {
+					continue
+				}
+				n++
+				class, _ := addrProvenance(info, decl, f, as.Rhs[i], 0)
+				okKeep := class == "part" || class == "av"
+				c.Oblige("forced-bit-kept:"+f.Name+":"+exprString(as.Rhs[i]), as.Pos(), okKeep,
+					"only the reflect.Value of `"+exprString(sel.X)+"` is replaced by `"+exprString(as.Rhs[i])+"` (provenance "+class+"), so the old forcedAddr bit survives; a dereferenced pointer or scratch copy needs its own bit")
+			}
+			return true
+		})
+	}
 	c.Floor("addressableValue constructions", n, 15)
 	// consumers: the method arshalers must consult the bit together with needAddr
 	nUse := 0
